@@ -132,6 +132,9 @@ pub enum Outcome {
 pub struct History {
     pub evs: Vec<Ev>,
     pub out: Vec<u8>,
+    /// clean states of the dispatcher (position hook), when requested: (input offset up to which
+    /// everything is in the sink or deliberately dropped, sink length at that moment)
+    pub clean: Vec<(usize, usize)>,
     /// cumulative bytes written / emitted after each successful write() return
     pub in_after_write: Vec<usize>,
     pub out_after_write: Vec<usize>,
